@@ -134,6 +134,13 @@ impl IndentationVisitor {
 
         // Find first non-whitespace position after `{`
         let after_open = &self.src[open_end..close_start];
+
+        // If there's only whitespace between the braces (e.g. the
+        // closing brace is missing), the leading and trailing
+        // whitespace are the same text, so there's nothing to fix.
+        if after_open.trim().is_empty() {
+            return;
+        }
         let leading_ws_len = after_open.len() - after_open.trim_start().len();
 
         // Find last non-whitespace position before `}`
